@@ -325,6 +325,7 @@ func main() {
 	emitConsts(root, *out)
 	emitTables(root, *out)
 	emitLayouts(root, *out)
+	emitReader(root, *out)
 	emitChecks(root, *out)
 	emitSchemas(root, *out)
 	emitLocks(server, *out)
